@@ -176,6 +176,19 @@ func (ex *executor) runBody(st *state) []*state {
 		}
 		ex.curCtx = n.ctx
 		ex.curNode = n
+		if ex.anc == nil {
+			ex.anc = map[*node]map[*node]bool{}
+		}
+		an := map[*node]bool{}
+		for _, e := range n.in {
+			if e.fromNode != nil {
+				an[e.fromNode] = true
+				for a := range ex.anc[e.fromNode] {
+					an[a] = true
+				}
+			}
+		}
+		ex.anc[n] = an
 		switch n.kind {
 		case 1:
 			ex.loopBack(n, cur)
@@ -267,7 +280,7 @@ func (ex *executor) pushEdge(n *node, idx int, st *state, c *Term) {
 			}
 		}
 	}
-	e.to.in = append(e.to.in, inEdge{st: ns, from: n.blk})
+	e.to.in = append(e.to.in, inEdge{st: ns, from: n.blk, fromNode: n})
 }
 
 func occurrence(b *ssa.BasicBlock, succIdx int) int {
@@ -329,6 +342,11 @@ func (ex *executor) loopBack(n *node, st *state) {
 	defer func() { ex.curLoop = nil }()
 	for i, inv := range lc.Invariants {
 		t := ex.evalBoolClause(inv, st, ex.root().entry, nil)
+		if ex.assumedUnder(st, t) {
+			// the very same fact was assumed on this path (nothing it reads was written): trivially preserved
+			ex.addObligation(st, "inv-preserved", fmt.Sprintf("loop %d %s", li.index, clauseLabel(inv, i)), True, li.pos)
+			continue
+		}
 		ex.addObligation(st, "inv-preserved", fmt.Sprintf("loop %d %s", li.index, clauseLabel(inv, i)), Implies(st.pc, t), li.pos)
 	}
 	ex.loopFrameObligation(li, st)
@@ -557,4 +575,53 @@ func (ex *executor) havocLoop(li *loopInfo, st *state) {
 		ex.loopFrames[li] = &loopFrame{allowed: allowed, head: snapshot, epochs: append([]epochAlt{}, st.epochs...)}
 	}
 	st.alloc = na
+}
+
+// assumedUnder: t was assumed verbatim under a path condition whose conjuncts are all conjuncts of st.pc.
+func (ex *executor) assumedUnder(st *state, t *Term) bool {
+	conj := map[int]bool{}
+	var add func(x *Term)
+	add = func(x *Term) {
+		if x.op == "and" {
+			for _, a := range x.args {
+				add(a)
+			}
+			return
+		}
+		conj[x.id] = true
+	}
+	add(st.pc)
+	implied := func(pcA *Term) bool {
+		if pcA == True {
+			return true
+		}
+		ok := true
+		var chk func(x *Term)
+		chk = func(x *Term) {
+			if x.op == "and" {
+				for _, a := range x.args {
+					chk(a)
+				}
+				return
+			}
+			if !conj[x.id] {
+				ok = false
+			}
+		}
+		chk(pcA)
+		return ok
+	}
+	for _, h := range ex.root().assumes {
+		if h == t {
+			return true
+		}
+		if h.op == "or" && len(h.args) == 2 {
+			for k := 0; k < 2; k++ {
+				if h.args[k] == t && h.args[1-k].op == "not" && implied(h.args[1-k].args[0]) {
+					return true
+				}
+			}
+		}
+	}
+	return false
 }
